@@ -48,9 +48,10 @@ def main():
         env2 = dict(env, VERIF_REPO=wt)
         rc, o = sh("./check %s --tier quick" % pid, cwd=VERIF, env=env2)
         lines = [l for l in o.split("\n") if l.startswith("VIOLATION") or l.startswith("KNOWN-FINDING")]
-        info = {"exit": rc, "lines": lines[:3]}
-        if lines:
-            m = re.search(r"replay=(\S+)", lines[0])
+        info = {"exit": rc, "lines": [l[:300] for l in lines[:4]]}
+        vlines = [l for l in lines if l.startswith("VIOLATION")]      # a KNOWN-FINDING line may come first
+        if vlines:
+            m = re.search(r"replay=(\S+)", vlines[0])
             if m and os.path.exists(m.group(1)):
                 rp = json.load(open(m.group(1)))
                 info["replay_reason"] = rp.get("reason")
